@@ -29,9 +29,9 @@ def main():
         ap.error("property id required")
     tier = a.tier if a.tier in ("quick", "thorough") else "quick"
     seed = int(os.environ.get("VERIF_SEED", "20260922"))
-    mod = importlib.import_module("props." + a.pid)
     ctx = core.Ctx(a.pid, tier, seed)
     try:
+        mod = importlib.import_module("props." + a.pid)
         if a.replay:
             mod.replay(ctx, a.replay)
         else:
@@ -47,6 +47,22 @@ def main():
             ctx.finish()
             return 1
         return 2
+    except Exception as e:  # noqa: BLE001
+        # The correspondence harness reads the implementation's objects (attributes, signatures, record shapes).  When the
+        # code under check no longer has the shape the harness and the model were written for, the tie between model and
+        # code can no longer be evaluated: the property is no longer shown to hold.  Reported as a violation without a
+        # failing input, the replay naming what could not be evaluated (a defect of the harness itself shows up the same
+        # way on the unchanged tree, where any non-zero exit marks the check as broken).
+        tb = traceback.format_exc()
+        print(tb)
+        if not ctx.violations:
+            ctx.violation("the correspondence harness could not evaluate the implementation: %s: %s" % (type(e).__name__, e),
+                          dict(kind="harness-exception", exception=repr(e), traceback=tb[-4000:],
+                               theorem="every theorem of Properties/%s.v (the tie to the code cannot be checked)" % a.pid),
+                          found_input=False)
+        else:
+            ctx.notes.append("check aborted by %r after violations were found" % (e,))
+        return ctx.finish()
     return ctx.finish()
 
 
